@@ -36,8 +36,21 @@ def make_reps(gspec):
     reps = {}
     sep = None
     if kind == 'regular':
-        _, dims, delta, zero = gspec
+        _, dims, delta, zero = gspec[:4]
         g = hcipy.CartesianGrid(hcipy.RegularCoords(np.array(delta, float), np.array(dims, int), np.array(zero, float)))
+        op = gspec[4] if len(gspec) > 4 else None
+        if op == 'reversed':
+            g = g.reversed()
+        elif op == 'scaled-1':
+            g = g.scaled(-1)
+        elif op == 'scaled-x':
+            g = g.scaled(np.array([-1.0, 1.0]))
+        elif op == 'scaled-y':
+            g = g.scaled(np.array([1.0, -1.0]))
+        elif op is not None:
+            raise MachineryError('unknown grid operation %r' % (op,))
+        if not g.is_regular:
+            raise MachineryError('grid operation %r did not keep the grid regular' % (op,))
         reps['regular'] = g
         sx, sy = [np.array(c, float) for c in g.separated_coords]
         sep = (sx, sy)
@@ -63,46 +76,96 @@ def make_reps(gspec):
     return reps, xs, ys, sep
 
 
-def gen_grid(rng, big):
-    r = rng.random()
-    nmax = 14 if big else 9
-    sizes = [1, 2, 3, 4, 5, 7, nmax]
+FAMILIES = ('regular', 'regular-xdesc', 'regular-ydesc', 'regular-reversed', 'regular-scaled-1', 'regular-scaled-x',
+            'regular-scaled-y', 'sep-asc', 'sep-desc', 'sep-mixed', 'sep-permuted', 'sep-repeated', 'size1-x', 'size1-y',
+            'polar-r0', 'polar')
+
+
+def gen_grid_family(rng, fam, nmax=9, half=2.5, centre=(0.0, 0.0), exact=True):
+    """A point set of the named family covering roughly centre +- half.  exact: dyadic coordinates."""
+    def num(lo, hi, bits):
+        return dyadic(rng, lo, hi, bits) if exact else float(rng.uniform(lo, hi))
+
     def size():
-        return int(rng.choice(sizes)) if rng.random() < 0.3 else int(rng.integers(4, nmax + 1))
+        return int(rng.choice([2, 3, 5, 7, nmax])) if rng.random() < 0.3 else int(rng.integers(4, nmax + 1))
     nx, ny = size(), size()
-    if r < 0.45:
-        ext = dyadic(rng, 2, 5, 4)
-        dx = ext / max(nx, 2) if rng.random() < 0.5 else dyadic(rng, 0.125, 1, 5)
-        dy = dx if rng.random() < 0.4 else dyadic(rng, 0.125, 1, 5)
-        # centre offset: odd multiples of 2^-9 keep exact boundary hits rare but possible
-        cx, cy = dyadic(rng, -1, 1, 9), dyadic(rng, -1, 1, 9)
-        if rng.random() < 0.3:
-            cx, cy = dyadic(rng, -1, 1, 3), dyadic(rng, -1, 1, 3)
-        zero = [cx - dx * (nx - 1) / 2, cy - dy * (ny - 1) / 2]
-        if rng.random() < 0.15:
+    if fam == 'size1-x':
+        nx = 1
+    if fam == 'size1-y':
+        ny = 1
+    if fam.startswith('regular') or (fam.startswith('size1') and rng.random() < 0.5):
+        ext = half * num(0.8, 2, 4)
+        dx = ext / max(nx, 2) if rng.random() < 0.5 else half * num(0.0625, 0.4, 6)
+        dy = dx if rng.random() < 0.4 else half * num(0.0625, 0.4, 6)
+        cx, cy = centre[0] + half * num(-0.4, 0.4, 9), centre[1] + half * num(-0.4, 0.4, 9)
+        if exact and rng.random() < 0.3:
+            cx, cy = centre[0] + dyadic(rng, -1, 1, 3), centre[1] + dyadic(rng, -1, 1, 3)
+        if fam in ('regular-xdesc',) or (fam.startswith('size1') and rng.random() < 0.3):
             dx = -dx
-            zero[0] = cx + abs(dx) * (nx - 1) / 2
-        return ['regular', [nx, ny], [dx, dy], zero]
-    if r < 0.85:
-        def axis(n):
-            v = sorted(dyadic(rng, -2.5, 2.5, 9) for _ in range(n))
-            m = rng.random()
-            if m < 0.15:
+        if fam in ('regular-ydesc',) or (fam.startswith('size1') and rng.random() < 0.3):
+            dy = -dy
+        zero = [cx - dx * (nx - 1) / 2, cy - dy * (ny - 1) / 2]
+        spec = ['regular', [nx, ny], [dx, dy], zero]
+        if fam in ('regular-reversed', 'regular-scaled-1', 'regular-scaled-x', 'regular-scaled-y'):
+            spec.append(fam[len('regular-'):])
+        return spec
+    if fam.startswith('sep') or fam.startswith('size1'):
+        def axis(n, c, mode):
+            v = sorted(c + half * num(-1, 1, 9) for _ in range(n))
+            if mode == 'desc':
                 v = v[::-1]
-            elif m < 0.35:
+            elif mode == 'permuted':
                 v = [float(t) for t in rng.permutation(v)]       # unsorted axes are legal SeparatedCoords
-            elif m < 0.45 and n > 1:
-                v[int(rng.integers(0, n - 1))] = v[-1]           # repeated coordinate
+            elif mode == 'repeated' and n > 1:
+                v[int(rng.integers(0, n - 1))] = v[-1]
             return [float(t) for t in v]
-        return ['sep', axis(nx), axis(ny)]
+        if fam == 'sep-mixed':
+            modes = ('asc', 'desc') if rng.random() < 0.5 else ('desc', 'asc')
+        elif fam.startswith('size1'):
+            modes = (str(rng.choice(['asc', 'desc'])), str(rng.choice(['asc', 'desc'])))
+        else:
+            m = fam[len('sep-'):]
+            modes = (m, m) if rng.random() < 0.6 else (m, 'asc')
+        return ['sep', axis(nx, centre[0], modes[0]), axis(ny, centre[1], modes[1])]
     nr, nt = max(1, min(nx, 6)), max(1, min(ny, 8))
-    rs = sorted(dyadic(rng, 0, 2.5, 8) for _ in range(nr))
+    rs = sorted(half * num(0.01, 1, 8) for _ in range(nr))
+    if fam == 'polar-r0':
+        rs[0] = 0.0                                              # the origin itself, once per angle
     ths = []
     for _ in range(nt):
         t = dyadic(rng, -4, 4, 4)
-        c, s = (1 - t * t) / (1 + t * t), 2 * t / (1 + t * t)
-        ths.append(math.atan2(s, c))
-    return ['polarsep', [float(v) for v in rs], sorted(ths)]
+        c, sn = (1 - t * t) / (1 + t * t), 2 * t / (1 + t * t)
+        ths.append(math.atan2(sn, c))
+    ths = sorted(ths)
+    if rng.random() < 0.3:
+        ths = ths[::-1]
+    return ['polarsep', [float(v) for v in rs], ths]
+
+
+FAMILY_WEIGHTS = [8, 5, 5, 4, 4, 3, 3, 8, 7, 6, 6, 3, 4, 4, 6, 6]
+
+
+def gen_grid(rng, big):
+    w = np.array(FAMILY_WEIGHTS, float)
+    fam = FAMILIES[int(rng.choice(len(FAMILIES), p=w / w.sum()))]
+    return gen_grid_family(rng, fam, nmax=14 if big else 9)
+
+
+def grid_features(gspec, sep):
+    """what the axes of this point set look like (measured on the coordinates actually built)"""
+    def direction(a):
+        if len(a) == 1:
+            return 'single'
+        d = np.diff(a)
+        if np.all(d > 0):
+            return 'asc'
+        if np.all(d < 0):
+            return 'desc'
+        return 'mixed'
+    if gspec[0] == 'polarsep':
+        return ['polar:r0=0' if gspec[1][0] == 0 else 'polar:r0>0', 'polar:theta-' + direction(np.array(gspec[2]))]
+    kind = gspec[0] + ('(' + gspec[4] + ')' if len(gspec) > 4 else '')
+    return ['%s:x-%s,y-%s' % (kind, direction(sep[0]), direction(sep[1]))]
 
 
 # ---------------------------------------------------------------------------------------------
@@ -493,6 +556,9 @@ def run_generic(ctx, gspec, sspec, over=None, want_model=True):
     if sup is not None:
         ctx.count('supersampled')
     ctx.count('grid:' + gspec[0])
+    for feat in grid_features(gspec, sep):
+        ctx.count('axes:' + feat)
+        ctx.count('cover:%s|%s' % (root_kind(sspec), feat))
     ctx.count('shape:' + label.split('(')[0])
     ctx.count('npoints', len(xs))
     nz = [v for v in res.values() if v is not None]
@@ -549,6 +615,34 @@ def run_generic(ctx, gspec, sspec, over=None, want_model=True):
 def _frac(t):
     from fractions import Fraction
     return Fraction(t)
+
+
+def _seg_of(segspec):
+    def mk(rng):
+        pos = gen_positions(rng)
+        return ['segmented', segspec(rng), pos, [dyadic(rng, 0, 1, 4) for _ in pos]]
+    return mk
+
+
+SWEEP_MAKERS = [
+    lambda rng: ['circle', dyadic(rng, 0.5, 3.5, 6), _centre(rng, 0.2)],
+    lambda rng: ['ellipse', [dyadic(rng, 0.5, 3.5, 6), dyadic(rng, 0.5, 3.5, 6)], _centre(rng, 0.2), _angle(rng)],
+    lambda rng: ['rect', [dyadic(rng, 0.5, 3, 6), dyadic(rng, 0.5, 3, 6)], _centre(rng, 0.2)],
+    lambda rng: ['regpoly', int(rng.choice([4, 6, 8])), dyadic(rng, 1, 3.5, 6), _angle(rng), _centre(rng, 0.2)],
+    lambda rng: ['regpoly', int(rng.choice([3, 5, 7])), dyadic(rng, 1, 3.5, 6), _angle(rng), _centre(rng, 0.2)],
+    lambda rng: [s for s in [gen_primitive(rng) for _ in range(40)] if s[0] == 'irrpoly'][0],
+    lambda rng: ['spider', [dyadic(rng, -2, 2, 5), dyadic(rng, -2, 2, 5)], [dyadic(rng, -2, 2, 5), dyadic(rng, -2, 2, 5)], dyadic(rng, 0.25, 1, 6)],
+    lambda rng: ['spiderinf', [dyadic(rng, -1, 1, 5), dyadic(rng, -1, 1, 5)], dyadic(rng, -360, 360, 2), dyadic(rng, 0.25, 1, 6)],
+    lambda rng: ['obstructed', dyadic(rng, 2, 4, 5), dyadic(rng, 0.1, 0.6, 5), int(rng.integers(0, 5)), dyadic(rng, 0.0625, 0.5, 6)],
+    lambda rng: ['obstruction', ['rect', dyadic(rng, 0.5, 3, 6), _centre(rng, 0.2)]],
+    lambda rng: ['rotated', ['regpoly', 6, dyadic(rng, 1, 3.5, 6), 0.0, _centre(rng, 0.2)], _angle(rng)],
+    lambda rng: ['shifted', ['regpoly', 5, dyadic(rng, 1, 3.5, 6), _angle(rng), None], [dyadic(rng, -1, 1, 6), dyadic(rng, -1, 1, 6)]],
+    _seg_of(lambda rng: ['regpoly', 6, dyadic(rng, 0.5, 1.25, 6), _angle(rng), _centre(rng, 0.7)]),
+    _seg_of(lambda rng: ['circle', dyadic(rng, 0.5, 1.25, 6), _centre(rng, 0.7)]),
+    lambda rng: ['hexseg', int(rng.integers(1, 3)), dyadic(rng, 0.5, 1, 5), dyadic(rng, 0, 0.125, 6), int(rng.integers(0, 2))],
+]
+HEX_PUPILS = ('make_keck_aperture', 'make_luvoir_a_aperture', 'make_luvoir_b_aperture', 'make_hicat_aperture',
+              'make_elt_aperture', 'make_tmt_aperture')
 
 
 DIRECTED = [
@@ -619,7 +713,7 @@ def pupil_configs():
     return cfgs
 
 
-def run_pupil(ctx, name, kw, gseed, over=None):
+def run_pupil(ctx, name, kw, gseed, over=None, fam=None):
     import hcipy.aperture.realistic as rl
     rng = np.random.default_rng(gseed)
     kw_real = dict(kw)
@@ -644,12 +738,12 @@ def run_pupil(ctx, name, kw, gseed, over=None):
         made, segs = made
     D = 1.0 if kw.get('normalized') else PUPIL_DIAMETER[name]
     nmax = 9 if name in HEAVY else 13
-    nx, ny = int(rng.integers(5, nmax + 1)), int(rng.integers(5, nmax + 1))
-    ext = D * float(rng.uniform(0.7, 1.15))
-    off = [D * float(rng.uniform(-0.05, 0.05)), D * float(rng.uniform(-0.05, 0.05))]
-    if name.startswith('make_vlti'):
-        ext = D * float(rng.uniform(0.05, 1.0))
-    gspec = ['regular', [nx, ny], [ext / nx, ext / ny * float(rng.uniform(0.8, 1.2))], [off[0] - ext / 2 + ext / nx / 2, off[1] - ext / 2 + ext / ny / 2]]
+    if fam is None:
+        w = np.array(FAMILY_WEIGHTS, float)
+        fam = FAMILIES[int(rng.choice(len(FAMILIES), p=w / w.sum()))]
+    half = 0.55 * D * (float(rng.uniform(0.05, 1.0)) if name.startswith('make_vlti') else float(rng.uniform(0.7, 1.1)))
+    gspec = gen_grid_family(rng, fam, nmax=nmax, half=half, exact=False)
+    case['fam'] = fam
     case['grid'] = gspec
     reps, xs, ys, sep = make_reps(gspec)
     scale = scale_of(xs, ys, D)
@@ -668,11 +762,135 @@ def run_pupil(ctx, name, kw, gseed, over=None):
         mixed = bool(nz) and 0 < np.count_nonzero(nz[0]) < len(xs)
         ctx.case(None, (lab, tuple(sorted(kw.items())), len(xs), int(np.count_nonzero(nz[0]))) if mixed else None)
         ctx.count('pupil-field:' + ('mixed' if mixed else 'constant'))
-    if over is not None:
+    for feat in grid_features(gspec, sep):
+        ctx.count('axes:' + feat)
+        ctx.count('cover:%s|%s' % (label, feat))
+    if over is not None and sep is not None and len(sep[0]) >= 2 and len(sep[1]) >= 2:
         for key, what in oracle_super(label, made, reps, over, binary)[1]:
             ctx.violation(key, what + ' [%r]' % (kw,), case)
         ctx.count('pupil-supersampled')
     ctx.count('pupil:' + name[5:])
+
+
+# ---------------------------------------------------------------------------------------------
+# one telescope pupil inside the model: Keck (segment positions from the model's own ring arithmetic)
+
+def keck_params(kw, trs):
+    """the constants of make_keck_aperture, computed with its own NumPy expressions"""
+    pupil_diameter = 10.95
+    actual_flat = np.sqrt(3) / 2 * 1.8
+    obs = 2.6
+    actual_gap = 0.003
+    spider_width = 2.6e-2
+    if kw.get('normalized'):
+        actual_flat /= pupil_diameter
+        actual_gap /= pupil_diameter
+        spider_width /= pupil_diameter
+        obs /= pupil_diameter
+        pupil_diameter = 1.0
+    gap = actual_gap * kw.get('gap_padding', 10)
+    if not kw.get('with_segment_gaps', True):
+        gap = 0
+    flat = actual_flat - (gap - actual_gap)
+    circum = 2 / np.sqrt(3) * flat
+    pitch = actual_flat + actual_gap
+    ap = pitch * np.sqrt(3) / 4                      # make_hexagonal_grid: apothem
+    _, toks, _, _ = build(['regpoly', 6, float(circum), float(np.pi / 2), None])
+    segR, segA, dirs = toks[2], toks[3], toks[4]
+    sp = []
+    if kw.get('with_spiders', True):
+        for deg in (0, 60, 120, 180, 240, 300):
+            a = np.radians(deg)
+            sp += [np.cos(a), np.sin(a)]
+    return ['3', rat(pitch), rat(ap), segR, segA, dirs, rat_list(trs), rat(obs / 2), rat_list(sp), rat(spider_width / 2)], pupil_diameter
+
+
+def run_keck(ctx, kw, gseed, fam):
+    import hcipy
+    rng = np.random.default_rng(gseed)
+    trs = np.ones(37) if not kw.get('transmissions') else np.round(rng.uniform(0, 1, 37) * 16) / 16
+    kw_real = {k: v for k, v in kw.items() if k != 'transmissions'}
+    with warnings.catch_warnings():
+        warnings.simplefilter('ignore')
+        gen = hcipy.make_keck_aperture(segment_transmissions=trs if kw.get('transmissions') else 1, **kw_real)
+    params, D = keck_params(kw, trs)
+    gspec = gen_grid_family(rng, fam, nmax=11, half=0.55 * D * float(rng.uniform(0.6, 1.1)), exact=False)
+    reps, xs, ys, sep = make_reps(gspec)
+    scale = scale_of(xs, ys, D)
+    case = {'kind': 'keck', 'kw': kw, 'gseed': int(gseed), 'fam': fam, 'grid': gspec}
+    res, fails = oracle(ctx, 'keck', gen, reps, xs, ys, scale, {0.0, 1.0} | set(float(t) for t in trs), True)
+    for key, what in fails:
+        ctx.violation(key, what + ' [%r]' % (kw,), case)
+    ctx.count('keck-model-cases')
+    for feat in grid_features(gspec, sep):
+        ctx.count('cover:keck(model)|' + feat)
+    nz = [v for v in res.values() if v is not None]
+    mixed = bool(nz) and 0 < np.count_nonzero(nz[0]) < len(xs)
+    ctx.case(None, ('keck-model', tuple(sorted(kw.items())), fam, len(xs), int(np.count_nonzero(nz[0]))) if mixed else None)
+    tol = rat(REL_TOL * scale)
+    lines = []
+    if sep is not None:
+        lines.append(('sep', 'C12 keck sep %s %s %s %s' % (tol, rat_list(sep[0]), rat_list(sep[1]), ' '.join(params))))
+    lines.append(('pts', 'C12 keck pts %s %s %s %s' % (tol, rat_list(xs), rat_list(ys), ' '.join(params))))
+
+    def check(out):
+        for (mode, req), resp in zip(lines, out):
+            parts = resp.split(' ')
+            if parts[0] != 'ok':
+                ctx.disagree('C12 keck ' + mode, {'case': case, 'model': resp})
+                continue
+            mv = [float(_frac(t)) for t in parts[1][1:-1].split(',')] if parts[1] != '[]' else []
+            near = [t == '1' for t in parts[2][1:-1].split(',')] if parts[2] != '[]' else []
+            if parts[3] != '1':
+                ctx.disagree('C12 model-self', {'case': case, 'detail': 'code-path model differs from point semantics', 'mode': mode})
+            names = ('regular', 'separated') if mode == 'sep' else ('unstructured', 'polar', 'polar-separated')
+            for name in names:
+                rv = res.get(name)
+                if rv is None:
+                    continue
+                ctx.traces_validated += 1
+                if len(mv) != len(rv):
+                    ctx.disagree('C12 keck ' + mode, {'case': case, 'detail': 'length'})
+                    continue
+                for i in range(len(rv)):
+                    if near[i]:
+                        ctx.boundary_skipped += 1
+                        ctx.count('model-boundary-skipped')
+                        continue
+                    ctx.count('points-compared')
+                    ctx.count('keck-points-compared')
+                    if abs(mv[i] - rv[i]) > 1e-9:
+                        ctx.disagree('C12 keck ' + mode, {'case': case, 'rep': name, 'index': i, 'point': [float(xs[i]), float(ys[i])],
+                                                          'model': mv[i], 'impl': float(rv[i])}, key='keck:model:%s' % name)
+                        break
+    return [l for _, l in lines], check
+
+
+# D120: VLT segment generators on a separated grid with a single row
+DIRECTED_PUPILS = [('make_vlt_aperture', {'normalized': False, 'with_spiders': False, 'with_M3_cover': False, 'return_segments': True},
+                    948772170, 'size1-y')]
+
+KECK_CONFIGS = [{}, {'normalized': True}, {'with_spiders': False}, {'with_segment_gaps': False}, {'gap_padding': 3},
+                {'normalized': True, 'with_spiders': False, 'gap_padding': 30}, {'transmissions': True},
+                {'transmissions': True, 'normalized': True, 'with_segment_gaps': False}]
+
+
+def check_hexqr(ctx):
+    """the model's integer ring arithmetic against make_hexagonal_grid (exact: q, r recovered from the positions)"""
+    import hcipy
+    for rings in range(0, 6):
+        g = hcipy.make_hexagonal_grid(2.0, rings, pointy_top=True)
+        x, y = np.array(g.x), np.array(g.y)
+        qr = []
+        for a, b in zip(x, y):
+            # circum_diameter 2: x = (r - q), y = (q + r) * sqrt(3)
+            sm = b / np.sqrt(3)
+            q, r = (sm - a) / 2, (sm + a) / 2
+            qr.append('%d,%d' % (int(round(q)), int(round(r))))
+        out = ctx.model(['C12 hexqr %d' % rings])[0]
+        ctx.traces_validated += 1
+        if out != 'ok ' + ';'.join(qr):
+            ctx.disagree('C12 hexqr', {'rings': rings, 'model': out[:200], 'impl': ';'.join(qr)[:200]})
 
 
 # ---------------------------------------------------------------------------------------------
@@ -703,11 +921,27 @@ def run(ctx):
         if ctx.rng.random() < 0.3:
             over = int(ctx.rng.integers(1, 5)) if ctx.rng.random() < 0.7 else [int(ctx.rng.integers(1, 4)), int(ctx.rng.integers(1, 4))]
         cases.append((g, s, over))
+    # coverage sweep: every maker on every grid family (descending / mixed-direction / library-reversed
+    # / size-1 axes, polar grids containing the origin)
+    sweep_rounds = ctx.scale(1, 4)
+    for _ in range(sweep_rounds):
+        for mk in SWEEP_MAKERS:
+            for fam in FAMILIES:
+                cases.append((gen_grid_family(ctx.rng, fam), mk(ctx.rng), None))
     lines, checks = [], []
     for g, s, over in cases:
         l, chk = run_generic(ctx, g, s, over)
         checks.append((len(lines), len(l), chk))
         lines += l
+    for _ in range(ctx.scale(1, 4)):
+        for kw in KECK_CONFIGS:
+            for fam in FAMILIES:
+                if ctx.quick() and ctx.rng.random() < 0.5:
+                    continue
+                l, chk = run_keck(ctx, kw, int(ctx.rng.integers(0, 2 ** 31)), fam)
+                checks.append((len(lines), len(l), chk))
+                lines += l
+    check_hexqr(ctx)
     out = ctx.model(lines)
     for base, cnt, chk in checks:
         chk(out[base:base + cnt])
@@ -716,6 +950,8 @@ def run(ctx):
     if compared + skipped and skipped > 0.05 * (compared + skipped):
         raise MachineryError('more than 5%% of the points were boundary-skipped (%d of %d): the generator is broken' % (skipped, compared + skipped))
     # telescope pupils
+    for name, kw, gseed, fam in DIRECTED_PUPILS:
+        run_pupil(ctx, name, kw, gseed, None, fam)
     cfgs = pupil_configs()
     rounds = ctx.scale(2, 12)
     for rnd in range(rounds):
@@ -725,12 +961,65 @@ def run(ctx):
                 continue
             over = int(ctx.rng.integers(2, 4)) if ctx.rng.random() < (0.15 if name in HEAVY else 0.3) and not kw.get('return_segments') else None
             run_pupil(ctx, name, kw, int(ctx.rng.integers(0, 2 ** 31)), over)
+    for _ in range(sweep_rounds):
+        for name in HEX_PUPILS:
+            for fam in FAMILIES:
+                if fam == 'regular':
+                    continue
+                kw = {'with_spiders': bool(ctx.rng.random() < 0.5)} if name != 'make_luvoir_b_aperture' else {}
+                run_pupil(ctx, name, kw, int(ctx.rng.integers(0, 2 ** 31)), None, fam)
     ctx.extra['pupil_configurations'] = len(cfgs)
+    ctx.extra['axis_distribution'] = {k[5:]: v for k, v in sorted(ctx.dist.items()) if k.startswith('axes:')}
+    cover = {}
+    for k, v in ctx.dist.items():
+        if k.startswith('cover:'):
+            mk, feat = k[6:].split('|')
+            cover.setdefault(mk, {})[feat] = v
+    ctx.extra['maker_by_axes'] = cover
+    # coarse classes, and the least-covered (maker, class) pair among generic makers and hex pupils
+    def classes(feat):
+        out = []
+        if feat == 'polar:r0=0':
+            out.append('polar-with-origin')
+        if feat.startswith('polar'):
+            return out
+        kind, axes = feat.split(':')
+        ax = axes.split(',')
+        if any(a.endswith('-desc') for a in ax):
+            out.append('descending-axis')
+        if sorted(a[2:] for a in ax) == ['asc', 'desc']:
+            out.append('mixed-direction')
+        if any(a.endswith('-mixed') for a in ax):
+            out.append('unsorted-axis')
+        if any(a.endswith('-single') for a in ax):
+            out.append('size-1-axis')
+        if '(' in kind:
+            out.append('library-reversed/scaled(-1)')
+        if kind.startswith('regular') and any(a.endswith('-desc') for a in ax):
+            out.append('regular-negative-delta')
+        return out
+    coarse = {}
+    for mk, feats in cover.items():
+        for feat, v in feats.items():
+            for c in classes(feat):
+                coarse.setdefault(mk, {})
+                coarse[mk][c] = coarse[mk].get(c, 0) + v
+    ctx.extra['maker_by_axis_class'] = coarse
+    all_classes = ['descending-axis', 'mixed-direction', 'unsorted-axis', 'size-1-axis', 'library-reversed/scaled(-1)',
+                   'regular-negative-delta', 'polar-with-origin']
+    watched = ['circle', 'ellipse', 'rect', 'regpoly', 'irrpoly', 'spider', 'spiderinf', 'obstructed', 'obstruction', 'rotated',
+               'shifted', 'segmented(regpoly)', 'segmented(circle)', 'hexseg'] + ['pupil:' + n[5:] for n in HEX_PUPILS]
+    least = min(((coarse.get(m, {}).get(c, 0), m, c) for m in watched for c in all_classes), default=None)
+    ctx.extra['least_covered_maker_axis_class'] = least
+    if least is not None and least[0] == 0:
+        raise MachineryError('the generator never presented %s on a grid of class %s' % (least[1], least[2]))
 
 
 def replay(ctx, case):
-    if case.get('kind') == 'pupil':
-        run_pupil(ctx, case['name'], case['kw'], case['gseed'], case.get('over'))
+    if case.get('kind') == 'keck':
+        run_keck(ctx, case['kw'], case['gseed'], case['fam'])
+    elif case.get('kind') == 'pupil':
+        run_pupil(ctx, case['name'], case['kw'], case['gseed'], case.get('over'), case.get('fam'))
     else:
         run_generic(ctx, case['grid'], case['shape'], case.get('over'), want_model=False)
     for v in ctx.violations:
